@@ -137,10 +137,12 @@ func EncodeDump(entries []*Entry, blockSize int) []byte {
 	var buf bytes.Buffer
 	gw, _ := gzip.NewWriterLevel(&buf, gzip.BestSpeed)
 	gw.Name = DumpHeader
-	for i := 0; i < len(entries); i += blockSize {
-		j := i + blockSize
-		if j > len(entries) {
-			j = len(entries)
+	for i := 0; i < len(entries); {
+		// at most blockSize entries and at most about 512 KiB of messages per block (the loader refuses blocks over 1 MiB)
+		j, size := i, 0
+		for j < len(entries) && j-i < blockSize && size < 512<<10 {
+			size += len(entries[j].GetMsg()) + len(entries[j].GetKey())
+			j++
 		}
 		blk := &cacheplugin.CacheDumpBlock{Entries: entries[i:j]}
 		pb, err := proto.Marshal(blk)
@@ -151,6 +153,7 @@ func EncodeDump(entries []*Entry, blockSize int) []byte {
 		binary.BigEndian.PutUint64(l[:], uint64(len(pb)))
 		gw.Write(l[:])
 		gw.Write(pb)
+		i = j
 	}
 	gw.Close()
 	return buf.Bytes()
